@@ -86,3 +86,15 @@ Theorem c16_positions_refuted_schema :
   reported PSchema """MySch""" = "mysch" /\ reported PTargetTable """MyTab""" = "MyTab".
 Proof. split; reflexivity. Qed.
 Print Assumptions c16_positions_refuted_schema.
+
+(** The whole extractor sees one entity however an identifier is spelled (Tree/LemmaASpell.v; see Props/C07.v (f)): with a
+    DIFFERENT admissible spelling for every syntactic role of an identifier (table, alias, column, qualifier, star qualifier,
+    CTE name, schema) the reads and writes are the specified ones - e.g. a CTE defined as `c` and used as C. *)
+From SV Require Import Tree.Observe Tree.Render Tree.LemmaA Tree.LemmaAProofs Tree.RenderSpell Tree.LemmaASpell.
+
+Theorem c16_one_entity_per_identifier_in_every_position : forall sp kwf noise e s,
+  spr_ok sp -> kw_ok kwf -> noise_ok noise = true -> env_ok e = true -> stmt_ok s = true -> sshape s = true ->
+  stmt_reads (analyze e false (r_stmt_spr sp kwf noise s)) = sort_strings (spec_reads (e_cfg e) s) /\
+  stmt_writes (analyze e false (r_stmt_spr sp kwf noise s)) = sort_strings (spec_writes (e_cfg e) s).
+Proof. exact lemma_A_spelling_roles. Qed.
+Print Assumptions c16_one_entity_per_identifier_in_every_position.
